@@ -142,6 +142,16 @@ func RunProp[S any](t *testing.T, p Prop[S]) {
 			return
 		}
 		cls := r.Viol[0].Class
+		if os.Getenv("VERIF_SURVEY") != "" {
+			// triage mode: list every class met, never fail
+			for _, v := range r.Viol {
+				if st.Probes["SURVEY "+v.Class] == 0 {
+					fmt.Printf("SURVEY %s :: %s\n", v.Class, v.Msg)
+				}
+				st.Probes["SURVEY "+v.Class]++
+			}
+			return
+		}
 		if target == "" {
 			target = cls
 		}
@@ -237,4 +247,79 @@ func guard(f func()) (msg string) {
 	}()
 	f()
 	return ""
+}
+
+// guardFrame is guard plus the innermost gabi function on the panicking stack
+// (used to name violation classes by call site, never by value).
+func guardFrame(f func()) (msg, frame string) {
+	defer func() {
+		if e := recover(); e != nil {
+			msg = fmt.Sprint(e)
+			if msg == "" {
+				msg = "panic"
+			}
+			frame = topGabiFrame(string(debug.Stack()))
+		}
+	}()
+	f()
+	return "", ""
+}
+
+func topGabiFrame(stack string) string {
+	const mod = "github.com/privacybydesign/gabi"
+	lines := splitLines(stack)
+	seenPanic := false
+	for _, l := range lines {
+		if len(l) >= 6 && l[:6] == "panic(" {
+			seenPanic = true
+			continue
+		}
+		if !seenPanic || len(l) == 0 || l[0] == '\t' {
+			continue
+		}
+		if i := indexOf(l, mod); i >= 0 {
+			fn := l[i+len(mod):]
+			if k := lastIndexOf(fn, "("); k > 0 {
+				fn = fn[:k]
+			}
+			for len(fn) > 0 && (fn[0] == '/' || fn[0] == '.') {
+				fn = fn[1:]
+			}
+			if len(fn) >= 4 && fn[:4] == "big." {
+				continue // thin wrappers around math/big: blame the caller
+			}
+			return fn
+		}
+	}
+	return "unknown"
+}
+
+func splitLines(s string) []string {
+	var out []string
+	start := 0
+	for i := 0; i < len(s); i++ {
+		if s[i] == '\n' {
+			out = append(out, s[start:i])
+			start = i + 1
+		}
+	}
+	return append(out, s[start:])
+}
+
+func indexOf(s, sub string) int {
+	for i := 0; i+len(sub) <= len(s); i++ {
+		if s[i:i+len(sub)] == sub {
+			return i
+		}
+	}
+	return -1
+}
+
+func lastIndexOf(s, sub string) int {
+	for i := len(s) - len(sub); i >= 0; i-- {
+		if s[i:i+len(sub)] == sub {
+			return i
+		}
+	}
+	return -1
 }
